@@ -230,6 +230,16 @@ fn fam_core(o: &mut Out, quick: bool, rng: &mut Rng) {
         let mut c = base(m, Problem::new("decay", 1.0), 2.0, 2.0); c.dense = true; c.tags = vec!["zero_interval".into()]; o.run(c);
         let mut c = base(m, Problem::new("decay", 1.0), 2.0, 2.0); c.t_eval = Some(vec![2.0, 2.0]); c.tags = vec!["zero_interval+t_eval".into()]; o.run(c);
     }
+    // empty state vector: nothing to integrate
+    for m in METHODS {
+        for v in 0..3 {
+            let mut c = base(m, Problem::new("empty", 0.0), 0.5, 1.5);
+            if v == 1 { c.dense = true; }
+            if v == 2 { c.t_eval = Some(linspace(0.5, 1.5, 4)); }
+            c.tags = vec!["empty_state".into()];
+            o.run(c);
+        }
+    }
     // infinite xend with a terminal event
     for m in ADAPTIVE {
         let mut c = base(m, Problem::new("const1", 0.0), 0.0, f64::INFINITY);
